@@ -41,7 +41,19 @@ def opC01Empty (j : Json) : Except String Json := do
   let n ← getStrL j "name"
   pure (Json.mkObj [("empty", Json.bool (emptyContent c)), ("keep", Json.bool (keepFile n c))])
 
+open Model.Imports in
+/-- `Proto.names`: `plain` (names of enums, messages, fields) and per message the (module, package) of its recursive field types -/
+def opC01Names (j : Json) : Except String Json := do
+  let plain ← (← getArrL j "plain").mapM fun v => do pure (← v.getStr?).toList
+  let msgs ← (← getArrL j "msgs").mapM fun mj => do
+    let arr ← mj.getArr?
+    arr.toList.mapM fun r => do pure (⟨← getStrL r "module", ← getStrL r "package"⟩ : Ref)
+  let reserved := Pinned.reservedNames.map String.toList
+  pure (Json.mkObj [("names", jarr ((protoNames plain reserved msgs).map jstr)),
+                    ("collisions", jarr ((moduleCollisions reserved msgs).map jstr)),
+                    ("perMessage", jarr ((moduleCollisionsPerMessage reserved msgs).map jstr))])
+
 def opsC01 : List (String × (Json → Except String Json)) :=
-  [("c01.registry", opC01Registry), ("c01.imports", opC01Imports), ("c01.empty", opC01Empty)]
+  [("c01.registry", opC01Registry), ("c01.imports", opC01Imports), ("c01.empty", opC01Empty), ("c01.names", opC01Names)]
 
 end GapicModel.Driver
